@@ -28,6 +28,24 @@
 (* arrived alone between two ticks and no lazy dance was begun, so nothing  *)
 (* is queued or waiting when the press arrives): the press of a second      *)
 (* tap-dance key ends the first key's count and starts its own.             *)
+(*                                                                         *)
+(* Listed actions of other kinds than a plain key (optional p.kinds, one    *)
+(* entry per listed action, from the description; outs[j] is then the       *)
+(* entry's marker):                                                         *)
+(*   "key"    the output key goes down when the action is performed and      *)
+(*            stays down until the final release (as before);                *)
+(*   "multi"  (multi k1 k2 ..): as "key" with marker k1; p.also[j] = the     *)
+(*            further keys, which go down on the same tick as the marker;    *)
+(*   "macro"  (macro k1 k2 ..): types its keys on its own; marker = d k1,    *)
+(*            which appears one tick after a key action would (calibrated),  *)
+(*            nothing is held; p.also[j] = the further keys it types, each   *)
+(*            only after the marker of a performance;                        *)
+(*   "silent" XX, release-key of a key that is not down, layer-while-held:   *)
+(*            no key output (outs[j] = 0): in the sharp zone the action for  *)
+(*            n taps is observable through what does NOT come out on its     *)
+(*            tick and through the next entry; outside the sharp zone a      *)
+(*            typed tap may have been consumed without a trace, so the       *)
+(*            `swallowed` rule only resets the count there.                  *)
 (***************************************************************************)
 EXTENDS Obs
 
@@ -38,6 +56,16 @@ OutIdx(p, o) == LET I == {i \in DOMAIN p.outs : p.outs[i] = o} IN
 MaxTaps(p) == Len(p.outs)
 RelCap(p) == Len(p.outs) + 2
 Depth(p) == IF "depth" \in DOMAIN p THEN p.depth ELSE MaxTaps(p) + 2
+Kind(p, j) == IF "kinds" \in DOMAIN p THEN p.kinds[j] ELSE "key"
+Lagged(p, j) == Kind(p, j) = "macro"
+Silent(p, j) == Kind(p, j) = "silent"
+HeldKind(p, j) == Kind(p, j) \in {"key", "multi"}
+HasSilent(p) == \E j \in DOMAIN p.outs : Silent(p, j)
+Also(p, j) == IF "also" \in DOMAIN p THEN p.also[j] ELSE <<>>
+\* the further keys of macro entries: <<entry index, position>> of code o
+AlsoOfMacro(p, o) == {j \in DOMAIN p.outs : Lagged(p, j) /\ \E i \in DOMAIN Also(p, j) : Also(p, j)[i] = o}
+DownIdxs(p, out) == {OutIdx(p, out[i][2]) : i \in {i \in DOMAIN out : out[i][1] = "d"}} \ {0}
+DownCodes(out) == {out[i][2] : i \in {i \in DOMAIN out : out[i][1] = "d"}}
 
 SubInit(p) ==
   [p |-> p,
@@ -60,6 +88,8 @@ SubInit(p) ==
    intr |-> FALSE,    \* eager: the current succession began by interrupting another key's dance (class marker only)
    clean |-> FALSE,   \* eager: the succession started sharp and every input since arrived alone between two ticks
                       \*   (then every dance in it starts sharp through `flow`, whatever the idle flag says)
+   due |-> 0,         \* index of a "macro" entry performed on the last tick: its marker appears on this one
+   perf |-> {},       \* "macro" entries performed so far since the last quiet point (their further keys may be typed)
    gapIn |-> 0, lastIdle |-> TRUE, quiet |-> p.red + 1, err |-> ""]
 
 AddTap(m) == IF m.grp = <<>> \/ m.sepNext
@@ -112,26 +142,34 @@ SubIn(m, r, g) ==
        THEN [m0 EXCEPT !.oth = TRUE, !.chain = FALSE, !.pos = 0, !.succ = 0, !.intr = FALSE, !.clean = FALSE]
        ELSE [m0 EXCEPT !.chain = m.chain /\ inSync, !.clean = m.clean /\ inSync]
 
-RECURSIVE Scan(_, _, _)
-\* expJ = the action index the sharp reference requires on this tick (0 = none allowed, -1 = no claim)
-Scan(m, out, expJ) ==
+RECURSIVE Scan(_, _, _, _)
+\* must = the action indices whose marker the sharp reference requires on this tick; claim = no other marker is allowed
+\* before those (claim with must = {}: none allowed)
+Scan(m, out, must, claim) ==
   IF out = <<>> \/ m.err # "" THEN m
   ELSE
     LET e == Head(out)
         rest == Tail(out)
         p == m.p
         j == OutIdx(p, e[2])
-    IN IF j = 0 THEN Scan(m, rest, expJ)
+    IN IF j = 0
+       THEN IF e[1] = "d" /\ AlsoOfMacro(p, e[2]) # {} /\ AlsoOfMacro(p, e[2]) \cap m.perf = {}
+            THEN Fail(m, "C17: a key of a listed macro was typed although that macro was not performed")
+            ELSE Scan(m, rest, must, claim)
        ELSE IF e[1] = "d"
        THEN LET c == Consume(m, j) IN
             IF ~c[1]
             THEN Fail(m, "C17: an action was performed for taps that were not typed")
-            ELSE IF expJ >= 0 /\ j # expJ
+            ELSE IF claim /\ j \notin must
             THEN Fail(m, "C17: wrong action for the number of taps (or performed on the wrong tick)")
-            ELSE Scan([c[2] EXCEPT !.cur = IF ~p.eager /\ m.run = "cnt" THEN j ELSE @], rest, 0 - 1)
+            ELSE IF ~(\A i \in DOMAIN Also(p, j) : Kind(p, j) # "multi" \/ Also(p, j)[i] \in DownCodes(out))
+            THEN Fail(m, "C17: a listed multi action was performed in part only")
+            ELSE Scan([c[2] EXCEPT !.cur = IF ~p.eager /\ m.run = "cnt" /\ HeldKind(p, j) THEN j ELSE @,
+                                   !.perf = IF Lagged(p, j) THEN @ \cup {j} ELSE @],
+                      rest, must \ {j}, claim /\ must \ {j} # {})
        ELSE IF e[1] = "u" /\ ~p.eager /\ m.run = "held" /\ m.cur = j /\ m.rels < OMin(m.n, RelCap(p))
        THEN Fail(m, "C17: the chosen action was released before the final release of the key")
-       ELSE Scan(m, rest, expJ)
+       ELSE Scan(m, rest, must, claim)
 
 SubTick(m, out, idle, cb) ==
   IF m.err # "" THEN m
@@ -148,19 +186,36 @@ SubTick(m, out, idle, cb) ==
         \* ---- eager sharp reference: a tap that arrived in sync is performed on the next tick
         expEager == IF p.eager /\ m.chain /\ m.gapIn = 1 /\ m.el = 0 /\ m.pos > 0 THEN m.pos ELSE 0 - 1
         expJ == IF p.eager THEN expEager ELSE IF counting THEN expLazy ELSE 0 - 1
-        m1 == Scan(m, out, expJ)
-        resolved == counting /\ m1.cur # 0
-        m2 == IF m1.err # "" THEN m1
+        \* kinds: a key / multi action shows on this tick, a macro's marker on the next one, a silent one never
+        silentNow == expJ > 0 /\ Silent(p, expJ)
+        laggedNow == expJ > 0 /\ Lagged(p, expJ)
+        imm == expJ > 0 /\ ~silentNow /\ ~laggedNow
+        must == (IF imm THEN {expJ} ELSE {}) \cup (IF m.due > 0 THEN {m.due} ELSE {})
+        m1 == Scan(m, out, must, expJ >= 0)
+        resolved == counting /\ (m1.cur # 0 \/ (resolveNow /\ (silentNow \/ laggedNow)))
+        idlePoint == idle /\ m.lastIdle /\ m.gapIn = 0
+        m2a == IF m1.err # "" THEN m1
               ELSE IF counting /\ resolveNow /\ ~resolved
               THEN Fail(m1, "C17: the run was not resolved on the tick the window closed")
-              ELSE IF p.eager /\ expEager > 0 /\ m1.taps = m.taps
+              ELSE IF p.eager /\ imm /\ m1.taps = m.taps
               THEN Fail(m1, "C17: an eager tap was not performed immediately")
+              ELSE IF must \ DownIdxs(p, out) # {}
+              THEN Fail(m1, IF p.eager THEN "C17: an eager tap was not performed immediately"
+                            ELSE "C17: the chosen action was not performed on its tick")
               \* idle = nothing queued, nothing waiting: every typed tap must have been consumed
-              ELSE IF idle /\ m.lastIdle /\ m.gapIn = 0 /\ m1.taps > 0
+              ELSE IF idlePoint /\ m1.taps > 0 /\ ~HasSilent(p) /\ m.due = 0 /\ ~laggedNow
               THEN Fail(m1, "C17: a typed tap was swallowed (no action accounts for it)")
               ELSE m1
+        \* a silent action performed by the sharp reference consumes its taps without a trace; outside the sharp zone
+        \* the taps a silent entry may have consumed are written off at the next idle point
+        m2 == IF m2a.err # "" THEN m2a
+              ELSE LET ms == IF silentNow THEN Consume(m2a, expJ)[2] ELSE m2a IN
+                   IF idlePoint /\ HasSilent(p) /\ m.due = 0 /\ ~laggedNow
+                   THEN [ms EXCEPT !.taps = 0, !.grp = <<>>, !.sepNext = FALSE] ELSE ms
         \* bookkeeping of the sharp run
         m3 == IF ~counting THEN m2
+              ELSE IF resolved /\ m1.cur = 0
+              THEN [m2 EXCEPT !.run = "none", !.n = 0, !.unc = 0, !.cur = 0]
               ELSE IF resolved
               THEN [m2 EXCEPT !.run = "held", !.n = nFinal, !.unc = 0]
               ELSE [m2 EXCEPT !.n = seen, !.unc = IF seen > m.n THEN 0 ELSE m.unc,
@@ -170,11 +225,13 @@ SubTick(m, out, idle, cb) ==
               THEN [m3 EXCEPT !.run = "none", !.cur = 0] ELSE m3
         m5 == IF m4.run = "held" /\ idle /\ m.lastIdle /\ m.gapIn = 0 THEN [m4 EXCEPT !.run = "none", !.cur = 0] ELSE m4
         m6 == [m5 EXCEPT !.el = OMin(T, p.T + 2), !.gapIn = 0, !.lastIdle = idle,
+                         !.due = IF m5.err = "" /\ laggedNow THEN expJ ELSE 0,
+                         !.perf = IF idlePoint /\ out = <<>> THEN {} ELSE @,
                          !.quiet = IF out = <<>> THEN OMin(m5.quiet + 1, p.red + 1) ELSE 0]
     \* eager: once the timeout has passed the chain is over (the next tap starts a new dance whatever the position was)
     IN IF p.eager /\ T >= p.T THEN [m6 EXCEPT !.chain = FALSE, !.pos = 0, !.succ = 0, !.intr = FALSE, !.clean = FALSE] ELSE m6
 
-SubQuiet(m, idle) == m.run = "none" /\ m.taps = 0 /\ m.lastIdle = idle /\ m.quiet > m.p.red /\ m.gapIn = 0
+SubQuiet(m, idle) == m.run = "none" /\ m.due = 0 /\ m.perf = {} /\ m.taps = 0 /\ m.lastIdle = idle /\ m.quiet > m.p.red /\ m.gapIn = 0
                      /\ m.el >= m.p.T + 2
 
 \* ---- the composition: one sub-monitor per tap-dance key -------------------------------------
